@@ -23,7 +23,9 @@ pub fn parse_item(item: &Value) -> Value {
     let t2 = text.clone();
     let r = on_thread(PARSE_STACK, move || {
         syntax::verif::reset(step_limit(t2.len()));
+        let t_parse = std::time::Instant::now();
         let p = syntax::parse(&t2);
+        let us = t_parse.elapsed().as_micros() as u64;
         let steps = syntax::verif::steps();
         syntax::verif::reset(u64::MAX);
         // number of raw lexical tokens (a skipped conditional region is one tree token but many lexer tokens)
@@ -77,7 +79,7 @@ pub fn parse_item(item: &Value) -> Value {
             .collect();
         let root_kind = format!("{:?}", node.kind());
         json!({
-            "len": t2.len(), "ntok": ts.len(), "nontrivia": nontrivia, "steps": steps, "nraw": nraw,
+            "len": t2.len(), "ntok": ts.len(), "nontrivia": nontrivia, "steps": steps, "nraw": nraw, "us": us,
             "ts": ts, "te": te, "tq": tq, "tb": tb, "tk": tk,
             "treeEq": tree_eq, "errs": errs, "root": root_kind,
             "lastb": t2.is_char_boundary(t2.len()),
